@@ -165,6 +165,14 @@ func (x *Exec) call(st *State, call *ast.CallExpr) []Term {
 		}
 	} else {
 		q = x.exprText(call.Fun) // calls through function values are anchored by their source text
+		for oldName, nw := range x.aliases {
+			// a renamed function-valued local keeps the anchor the contract was written with
+			if q == nw {
+				q = oldName
+			} else if strings.HasPrefix(q, nw+".") {
+				q = oldName + q[len(nw):]
+			}
+		}
 	}
 	if x.anchorsHit == nil {
 		x.anchorsHit = map[string]bool{}
@@ -562,6 +570,20 @@ func (x *Exec) callWithContract(st *State, call *ast.CallExpr, fn *types.Func, c
 	// preconditions
 	n := x.names["precount@"+ct.Key]
 	x.names["precount@"+ct.Key]++
+	// the callee's parameters may have been renamed since its contract was written: bind the contract's names too
+	if fd := x.w.funcDecls[fn]; fd != nil && fn.Pkg() != nil {
+		if cp := x.w.pkgs[fn.Pkg().Path()]; cp != nil {
+			key := strings.TrimPrefix(fn.Pkg().Path(), modPath+"/") + "." + funcKey(fn)
+			for oldName, nw := range renameAliases(x.w.ledgerLocals[key], localsOf(cp.TypesInfo, fd)) {
+				if t, ok := pre.vars[nw]; ok {
+					if _, clash := pre.vars[oldName]; !clash {
+						pre.vars[oldName] = t
+						postEnv.vars[oldName] = postEnv.vars[nw]
+					}
+				}
+			}
+		}
+	}
 	for i, r := range ct.Requires {
 		lbl := r.Label
 		if lbl == "" {
